@@ -127,3 +127,18 @@ where
 {
     fallback
 }
+
+// `const fn` with a concrete dependency (in practice only concrete / no_deps functions can be const):
+// neither the trait method nor the method of `impl Trait for C` may be `const`
+pub struct PortConfig {
+    pub base: u16,
+}
+#[entrait(pub GetPort)]
+pub const fn get_port(config: &PortConfig, offset: u16) -> u16 {
+    config.base + offset
+}
+pub const DEFAULT_PORT: u16 = get_port(&PortConfig { base: 8000 }, 80);
+#[entrait(GetPortUnsafe)]
+const unsafe fn get_port_unsafe(config: &PortConfig) -> u16 {
+    config.base
+}
